@@ -507,12 +507,16 @@ pub fn naive_ones(words: &[u64], limit: usize) -> Vec<usize> {
     (0..limit.min(words.len() * 64)).filter(|&i| (words[i / 64] >> (i % 64)) & 1 == 1).collect()
 }
 
+/// OR this into `full_k_limit` to leave the k >= 2^32 probes out (C31: that defect belongs to C07).
+pub const NO_HUGE_K: usize = 1 << 63;
 pub const HUGE_K: [usize; 6] = [(1usize << 32) - 1, 1usize << 32, (1usize << 32) + 1, (1usize << 33) + 1, usize::MAX - 1, usize::MAX];
 
 /// Which `k` to probe: all of `0..=ones+2` (small) or boundary ranks (large).
-pub fn k_set(ones: usize, full_k_limit: usize) -> Vec<usize> {
+pub fn k_set(ones: usize, full_k_limit: usize, huge: bool) -> Vec<usize> {
     let mut v: Vec<usize> = if ones <= full_k_limit { (0..ones + 3).collect() } else { engine::gen::boundaries(&[0, 8, 63, 64, 65, 512, ones / 3, ones / 2, ones], ones + 2) };
-    v.extend(HUGE_K);
+    if huge {
+        v.extend(HUGE_K);
+    }
     v
 }
 
@@ -551,27 +555,60 @@ pub fn check_rank_select<W: AsRef<[u64]>>(rep: &mut Report, tag: &str, ix: &Json
             acc += 1;
         }
         rep.trans(1);
-        let got = ix.ib_rank1(p);
+        // out-of-range arguments are probed under their own catch so that a panic there
+        // cannot mask the in-range checks of this input
+        let got = if p > text_len + 2 {
+            match catch(|| ix.ib_rank1(p)) {
+                Ok(g) => g,
+                Err(m) => {
+                    fail(rep, "PANIC:ib_rank1:beyond-len".to_string(), json!({"p": p, "panic": m}));
+                    continue;
+                }
+            }
+        } else {
+            ix.ib_rank1(p)
+        };
         if got != acc {
             let f = if p > text_len { "beyond-len" } else if p % 64 == 0 { "word-boundary" } else { "in-word" };
             fail(rep, format!("ib_rank1:{f}"), json!({"p": p, "got": got, "exp": acc}));
         }
     }
     // select, hinted select
-    let ks = k_set(ones.len(), full_k_limit);
+    let ks = k_set(ones.len(), full_k_limit.min(usize::MAX >> 1), full_k_limit & NO_HUGE_K == 0);
     let all_hints = (nw as u64 + 12).saturating_mul(ks.len() as u64) <= hint_budget;
     let hints: Vec<usize> = if all_hints { (0..nw + 11).chain([usize::MAX]).collect() } else { engine::gen::boundaries(&[0, 1, 2, 4, 8, 16, nw / 2, nw], nw + 10).into_iter().chain([usize::MAX]).collect() };
     for k in ks {
         let exp = ones.get(k).copied();
         rep.trans(1);
-        let got = ix.ib_select1(k);
+        let huge = k >= (1usize << 32) - 1;
+        let got = if huge {
+            match catch(|| ix.ib_select1(k)) {
+                Ok(g) => g,
+                Err(m) => {
+                    fail(rep, "PANIC:ib_select1:k>=2^32-1".to_string(), json!({"k": k, "panic": m}));
+                    continue;
+                }
+            }
+        } else {
+            ix.ib_select1(k)
+        };
         if got != exp {
             let f = if k >= (1usize << 32) { "k>=2^32".to_string() } else if k >= ones.len() { "k>=ones".to_string() } else { "k<ones".to_string() };
             fail(rep, format!("ib_select1:{f}"), json!({"k": k, "got": format!("{got:?}"), "exp": format!("{exp:?}")}));
         }
         for &h in &hints {
             rep.trans(1);
-            let got = ix.ib_select1_from(k, h);
+            let got = if huge || h > nw + 10 {
+                match catch(|| ix.ib_select1_from(k, h)) {
+                    Ok(g) => g,
+                    Err(m) => {
+                        fail(rep, format!("PANIC:ib_select1_from:{}", if huge { "k>=2^32-1" } else { "hint=MAX" }), json!({"k": k, "hint": h, "panic": m}));
+                        break;
+                    }
+                }
+            } else {
+                ix.ib_select1_from(k, h)
+            };
             if got != exp {
                 let kf = if k >= (1usize << 32) { "k>=2^32" } else if k >= ones.len() { "k>=ones" } else { "k<ones" };
                 // where is the hint relative to the answer's word?
@@ -615,7 +652,8 @@ pub fn check_positions<W: AsRef<[u64]>>(ck: &mut Ck<'_, '_>, ix: &JsonIndex<W>, 
         let tp = c.text_position();
         if tp != Some(doc.nodes[id].start) {
             let f = ck.feat(id);
-            ck.fail(&format!("text_position:{f}"), json!({"node": id, "got": format!("{tp:?}"), "exp": doc.nodes[id].start}));
+            let how = if tp.is_none() { "none" } else { "wrong-offset" };
+            ck.fail(&format!("text_position:{how}"), json!({"node": id, "node_kind": f, "got": format!("{tp:?}"), "exp": doc.nodes[id].start}));
         }
     }
     let len = text.len();
@@ -631,16 +669,26 @@ pub fn check_positions<W: AsRef<[u64]>>(ck: &mut Ck<'_, '_>, ix: &JsonIndex<W>, 
     for o in offs {
         ck.rep.trans(1);
         let exp = if o >= len { None } else { doc.node_at_or_before(o) };
-        let got = root.cursor_at_offset(o).map(|c| c.bp_position());
+        let got = if o > len + 1 {
+            match catch(|| root.cursor_at_offset(o).map(|c| c.bp_position())) {
+                Ok(g) => g,
+                Err(m) => {
+                    ck.fail("PANIC:cursor_at_offset:beyond-len", json!({"offset": o, "panic": m}));
+                    continue;
+                }
+            }
+        } else {
+            root.cursor_at_offset(o).map(|c| c.bp_position())
+        };
         if got != exp.map(|e| expected_bp(doc, e)) {
-            let f = match exp {
-                None if o >= len => "beyond-len".to_string(),
-                None => "before-first-token".to_string(),
-                Some(e) if doc.nodes[e].start == o => format!("at-start:{}", doc.nodes[e].kind.name()),
-                Some(e) if o < doc.nodes[e].end => format!("inside:{}", doc.nodes[e].kind.name()),
-                Some(_) => "after-token".to_string(),
+            let (f, kind) = match exp {
+                None if o >= len => ("beyond-len", "-"),
+                None => ("before-first-token", "-"),
+                Some(e) if doc.nodes[e].start == o => ("at-start", doc.nodes[e].kind.name()),
+                Some(e) if o < doc.nodes[e].end => ("inside", doc.nodes[e].kind.name()),
+                Some(e) => ("after-token", doc.nodes[e].kind.name()),
             };
-            ck.fail(&format!("cursor_at_offset:{f}"), json!({"offset": o, "got": got, "exp": exp.map(|e| expected_bp(doc, e))}));
+            ck.fail(&format!("cursor_at_offset:{f}"), json!({"offset": o, "node_kind": kind, "got": got, "exp": exp.map(|e| expected_bp(doc, e))}));
         }
         if o < len && lines.is_some() {
             let (l, c) = oracle::line_col_crlf(text, o);
@@ -657,7 +705,13 @@ pub fn check_positions<W: AsRef<[u64]>>(ck: &mut Ck<'_, '_>, ix: &JsonIndex<W>, 
         for (l, c) in [(0usize, 1usize), (1, 0), (0, 0), (nl + 1, 1), (nl, last_len + 1), (nl, last_len + 100), (usize::MAX, 1), (1, len + 1)] {
             ck.rep.trans(1);
             // out of range: line 0, column 0, line past the end, offset past the end
-            let got = root.cursor_at_position(l, c).map(|c| c.bp_position());
+            let got = match catch(|| root.cursor_at_position(l, c).map(|c| c.bp_position())) {
+                Ok(g) => g,
+                Err(m) => {
+                    ck.fail("PANIC:cursor_at_position:out-of-range", json!({"line": l, "column": c, "panic": m}));
+                    continue;
+                }
+            };
             if got.is_some() {
                 ck.fail("cursor_at_position:some-out-of-range", json!({"line": l, "column": c, "got": got}));
             }
